@@ -392,24 +392,44 @@ class Translator:
                 if n != "UnknownPlaceholder":
                     msgs.append(n)
         self.msgs = msgs
-        table = []
+        # bolt-derive's ReadMessage, as written (bolt-derive/src/lib.rs derive_read_message): for a
+        # variant `V(T)` it emits the arm  `V::TYPE => Message::T(Decodable::consensus_decode(reader)?)`
+        # i.e. the type id is that of the STRUCT NAMED LIKE THE VARIANT, the constructor is the VARIANT
+        # NAMED LIKE THE PAYLOAD TYPE, and what is decoded is that variant's payload type.  With V = T
+        # (every variant today) this is the obvious arm; with V != T it is not.
+        payload_of = {v["variant"]: v["type"] for v in self.src["variants"]}
+        arms = []
         for v in self.src["variants"]:
-            if v["variant"] == "Unknown":
+            V, T = v["variant"], v["type"]
+            if V == "Unknown":
                 continue    # bolt-derive skips it: the `_` arm
-            if v["variant"] != v["type"]:
-                raise GenError("Message::%s wraps %s: ReadMessage needs equal names" % (v["variant"], v["type"]))
-            if v["type"] not in msgs:
-                raise GenError("Message::%s: %s is not a SerBolt struct" % (v["variant"], v["type"]))
-            table.append(v["type"])
-        self.table = table
+            if V not in msgs:
+                raise GenError("Message::%s: `%s::TYPE` needs a SerBolt struct named %s (rustc would refuse)" % (V, V, V))
+            if T not in payload_of:
+                raise GenError("Message::%s(%s): the derive builds `Message::%s(..)`, no such variant (rustc would refuse)" % (V, T, T))
+            built = payload_of[T]
+            if built not in msgs or T not in msgs:
+                raise GenError("Message::%s(%s): %s / %s is not a SerBolt struct" % (V, T, T, built))
+            arms.append(dict(variant=V, payload=T, id=self.structs[V]["attrs"]["message_id"], built=built))
+        self.arms = arms
+        # a message struct n is served when some arm under n's own id builds an n
+        self.arm_of = {}
+        for k, a in enumerate(arms):
+            n = a["built"]
+            if a["id"] == self.structs[n]["attrs"]["message_id"] and n not in self.arm_of:
+                self.arm_of[n] = k
+        self.table = [n for n in msgs if n in self.arm_of]
+        table = arms
         ids = {}
-        for n in table:
-            ids.setdefault(self.structs[n]["attrs"]["message_id"], []).append(n)
+        for a in arms:
+            ids.setdefault(a["id"], []).append(a["variant"])
         self.report = dict(
             structs=len(self.order), messages=len(msgs), dispatch_arms=len(table),
             max_message_size=self.src["max_message_size"],
             duplicate_ids=[dict(id=i, types=ns) for i, ns in sorted(ids.items()) if len(ns) > 1],
-            undispatched=[n for n in msgs if n not in table],
+            undispatched=[n for n in msgs if n not in self.arm_of],
+            misnamed_variants=[dict(variant=a["variant"], payload=a["payload"], id=a["id"], builds=a["built"])
+                               for a in arms if not (a["variant"] == a["payload"] == a["built"])],
             blob_types=[n for n in msgs if self.has_blob[n]],
             ids={n: self.structs[n]["attrs"]["message_id"] for n in msgs},
             count_hypothesis_fields=sorted({w for n in msgs for w in self.counted[n]}),
@@ -496,16 +516,18 @@ class Translator:
         w("Definition msg_index (m : msg) : N :=\n  match m with\n%s\n  end." % "\n".join(
             "  | M_%s _ => %d" % (n, k) for k, n in enumerate(self.msgs)))
         w("Definition table : list (entry msg) := [\n%s\n]." % ";\n".join(
-            "  {| e_id := %d; e_dec := dec_map M_%s dec_%s |}" % (self.structs[n]["attrs"]["message_id"], n, n)
-            for n in self.table))
-        w("Definition table_ids : list N := [%s]." % "; ".join(
-            str(self.structs[n]["attrs"]["message_id"]) for n in self.table))
+            "  {| e_id := %d; e_dec := dec_map M_%s dec_%s |}%s" % (
+                a["id"], a["built"], a["built"],
+                "" if a["variant"] == a["payload"] == a["built"] else
+                "   (* variant %s(%s): id of struct %s, builds Message::%s *)" % (a["variant"], a["payload"], a["variant"], a["payload"]))
+            for a in self.arms))
+        w("Definition table_ids : list N := [%s]." % "; ".join(str(a["id"]) for a in self.arms))
         w("Lemma table_ids_ok : map e_id table = table_ids.\nProof. reflexivity. Qed.\n")
         w("Definition as_vec : msg -> bytes := as_vec_of msg_id enc_msg.\n")
         for n in self.msgs:
             mid = self.structs[n]["attrs"]["message_id"]
-            if n in self.table:
-                k = self.table.index(n)
+            if n in self.arm_of:
+                k = self.arm_of[n]
                 w("Lemma arm_%s : forall x, wf_%s x = true -> exists e, In e table /\\ e_id e = %d /\\\n"
                   "  forall rest, e_dec e (enc_%s x ++ rest) = Some (M_%s x, rest).\n"
                   "Proof.\n  intros x Hw. exists {| e_id := %d; e_dec := dec_map M_%s dec_%s |}.\n"
@@ -513,11 +535,13 @@ class Translator:
                   "  intros rest. cbn [e_dec]. unfold dec_map. rewrite (rt_%s x rest Hw). reflexivity.\nQed."
                   % (n, n, mid, n, n, mid, n, n, k, n))
             else:
-                w("(* OBLIGATION THAT CANNOT HOLD: %s derives SerBolt (id %d) but enum Message has no arm for it,\n"
-                  "   so msgs::from_vec cannot return it. *)\n"
-                  "Lemma arm_%s : forall x, wf_%s x = true -> exists e, In e table /\\ e_id e = %d /\\\n"
-                  "  forall rest, e_dec e (enc_%s x ++ rest) = Some (M_%s x, rest).\n"
-                  "Proof. fail \"%s is not dispatched by enum Message\". Qed." % (n, mid, n, n, mid, n, n, n))
+                # kept as a hypothesis so that the definitions above stay usable (the executable
+                # comparison still runs); every theorem below then carries it as a premise and
+                # Props/C19.v, which states them without it, no longer builds
+                w("(* OPEN OBLIGATION (cannot hold): %s derives SerBolt (id %d) but no arm of the dispatch generated for\n"
+                  "   enum Message builds a %s under that id, so msgs::from_vec cannot return it. *)\n"
+                  "Hypothesis arm_%s : forall x, wf_%s x = true -> exists e, In e table /\\ e_id e = %d /\\\n"
+                  "  forall rest, e_dec e (enc_%s x ++ rest) = Some (M_%s x, rest)." % (n, mid, n, n, n, mid, n, n))
         w("\nLemma table_complete : forall m, wf_msg m = true ->\n  fits 2 (msg_id m) = true /\\\n"
           "  exists e, In e table /\\ e_id e = msg_id m /\\ forall rest, e_dec e (enc_msg m ++ rest) = Some (m, rest).\n"
           "Proof.\n  intros m Hw. destruct m; (split; [reflexivity|]); cbn [wf_msg msg_id enc_msg] in *.\n%s\nQed.\n"
@@ -573,8 +597,8 @@ class Translator:
         w("];")
         w("/// variant name, canonical structure (as received), re-encoded bytes of a decoded message")
         w("pub fn describe(m: &Message) -> (String, String, Vec<u8>) {\n    match m {")
-        for n in self.table:
-            w('        Message::%s(i) => ("%s".to_string(), AnyMsg::canon_msg(i, true), AnyMsg::bytes(i)),' % (n, n))
+        for a in self.arms:
+            w('        Message::%s(i) => ("%s".to_string(), AnyMsg::canon_msg(i, true), AnyMsg::bytes(i)),' % (a["variant"], a["variant"]))
         w('        Message::Unknown(u) => ("Unknown".to_string(), format!("{}", u.message_type), vec![]),')
         w("    }\n}")
         return "\n".join(o) + "\n"
